@@ -10,7 +10,7 @@ from .values import Seq, SetV, DictV, Obj, ObjSeq, Func, Module, RangeV, OutOfSu
 
 BUILTINS = {"len", "range", "list", "tuple", "max", "min", "abs", "sum", "int", "float", "bool", "map", "zip",
             "enumerate", "sorted", "reversed", "isinstance", "set", "round", "all", "any", "dict", "str"}
-MODULES = {"np": "np", "numpy": "np", "math": "math", "itertools": "itertools", "time": "time", "sys": "sys", "logging": "logging", "sklearn": "sklearn"}
+MODULES = {"np": "np", "numpy": "np", "math": "math", "itertools": "itertools", "time": "time", "sys": "sys", "logging": "logging", "sklearn": "sklearn", "LA": "np.linalg"}
 
 POW2 = z3.Function("pow2", z3.IntSort(), z3.IntSort())
 SUMR = z3.Function("SumR", z3.ArraySort(z3.IntSort(), z3.RealSort()), z3.IntSort(), z3.IntSort(), z3.RealSort())
@@ -28,6 +28,32 @@ def prod_axioms():
     lo, hi = z3.Ints("plo phi")
     return [z3.ForAll([a, lo], PRODR(a, lo, lo) == 1, patterns=[PRODR(a, lo, lo)]),
             z3.ForAll([a, lo, hi], z3.Implies(hi > lo, PRODR(a, lo, hi) == PRODR(a, lo, hi - 1) * z3.Select(a, hi - 1)), patterns=[PRODR(a, lo, hi)])]
+
+
+SQRTF = z3.Function("sqrt", z3.RealSort(), z3.RealSort())
+
+
+def sqrt_term(ex, xz):
+    """the real square root as an uninterpreted function with the defining instance  sqrt(x) >= 0 and sqrt(x)^2 == x  for this argument"""
+    r = SQRTF(xz)
+    ex.assume(z3.Implies(xz >= 0, z3.And(r >= 0, r * r == xz)), "def:sqrt")
+    return r
+
+
+def norm_term(ex, items, ordv):
+    """numpy.linalg.norm of a vector with concretely many entries: ord 1 = sum of absolute values, ord None/2 = sqrt of the sum of squares, ord inf = largest absolute value"""
+    zs = [V.to_z3(V.bool_to_int(x), True) for x in items]
+    ab = [z3.If(x >= 0, x, -x) for x in zs]
+    if isinstance(ordv, V.Inf):
+        m = ab[0]
+        for x in ab[1:]:
+            m = z3.If(m >= x, m, x)
+        return m
+    if ordv == 1:
+        return z3.simplify(sum(ab[1:], ab[0]))
+    if ordv in (None, 2):
+        return sqrt_term(ex, sum([x * x for x in zs][1:], zs[0] * zs[0]))
+    raise OutOfSubset("norm order %r" % (ordv,))
 
 
 def sum_axioms():
@@ -216,6 +242,8 @@ def call_builtin(ex, name, args, kwargs, node):
             out.items[:] = vals          # written in place
             return out
         return Seq("array", vals)
+    if name == "abs" and isinstance(args[0], Seq) and args[0].concrete:
+        return Seq("array", [call_builtin(ex, "abs", [it], {}, node) for it in args[0].items])
     if name in ("abs", "np.abs", "math.fabs", "np.absolute"):
         (x,) = args
         x = V.bool_to_int(x)
@@ -333,6 +361,14 @@ def call_builtin(ex, name, args, kwargs, node):
             c = 0 if name == "np.zeros" else 1
             return Seq("array", [c if intd else Fraction(c) for _ in range(n)])
         return Seq("array", None, n, arr)
+    if name == "np.linalg.norm":
+        v = args[0]
+        if not (isinstance(v, Seq) and v.concrete and v.items):
+            raise OutOfSubset("norm of a vector of symbolic length", node)
+        ordv = args[1] if len(args) > 1 else kwargs.get("ord")
+        if isinstance(ordv, Fraction) and ordv.denominator == 1:
+            ordv = int(ordv)
+        return norm_term(ex, v.items, ordv)
     if name == "np.linalg.lstsq":
         # least-squares solve: the solution is some real vector with one entry per column of the matrix; nothing else is assumed about it
         A = args[0]
@@ -362,11 +398,9 @@ def call_builtin(ex, name, args, kwargs, node):
         return Seq("array", None, n, arr)
     if name in ("math.sqrt", "np.sqrt"):
         (x,) = args
-        r = S.real("sqrt")
         xz = V.to_z3(V.bool_to_int(x), True)
         ex.safety("sqrt-nonneg", xz >= 0, node)
-        ex.assume(z3.And(r >= 0, r * r == xz))
-        return r
+        return sqrt_term(ex, xz)
     if name in ("math.floor", "math.ceil", "np.floor", "np.ceil"):
         (x,) = args
         if V.is_int(x):
